@@ -351,6 +351,27 @@ def run(tier):
                 ck.violation('vla:reject', 'valid probe not compiled to a constant return (-t %s): %s %s' % (t, src.strip(), r.err[:150].decode('latin-1')), {'input.c': src})
             elif int(mret.group(1)) != want:
                 ck.violation('vla:%d' % k, '_Generic selects arm %s, C11 gives arm %d (-t %s): %s' % (mret.group(1), want, t, src.strip()), {'input.c': src})
+    # C23 typeof / typeof_unqual with type-name and expression operands (neither reference compiler has typeof_unqual: judged by the text of C23 6.7.2.5)
+    TPROBES = [('typeof_unqual(const int) a; return _Generic(&a, int *: 1, const int *: 2);', 1), ('typedef const int CI; typeof_unqual(CI) b; return _Generic(&b, int *: 1, const int *: 2);', 1),
+               ('const int c = 0; typeof_unqual(c) d; return _Generic(&d, int *: 1, const int *: 2);', 1), ('const int c = 0; typeof(c) d = 0; return _Generic(&d, int *: 1, const int *: 2);', 2),
+               ('typeof(const int) e = 0; return _Generic(&e, int *: 1, const int *: 2);', 2), ('typeof_unqual(const volatile int *) p; return _Generic(p, const volatile int *: 1, int *: 2);', 1),
+               ('typeof_unqual(int *const) p; return _Generic(&p, int **: 1, int *const *: 2);', 1), ('volatile short v; typeof_unqual(v) w; return _Generic(&w, short *: 1, volatile short *: 2);', 1),
+               ('__typeof__(const int) f = 0; return _Generic(&f, int *: 1, const int *: 2);', 2), ('typedef volatile long VL; typeof_unqual(VL) g; return _Generic(&g, long *: 1, volatile long *: 2);', 1), ('typedef volatile long VL; typeof(VL) h; return _Generic(&h, long *: 1, volatile long *: 2);', 2),
+               ('typeof_unqual(const unsigned char) k = 0; return _Generic(k + 0, int: 1, unsigned: 2);', 1), ('typeof_unqual(const unsigned char) k = 0; return _Generic(&k, unsigned char *: 1, const unsigned char *: 2);', 1),
+               ('typeof_unqual(const struct { int m; }) s; s.m = 1; return _Generic(&s.m, int *: 1, const int *: 2);', 1), ('typeof(typeof_unqual(const int)) q; return _Generic(&q, int *: 1, const int *: 2);', 1),
+               ('typeof_unqual(typeof(const int)) q; return _Generic(&q, int *: 1, const int *: 2);', 1)]
+    for t in common.TARGETS:
+        for k, (body, want) in enumerate(TPROBES):
+            src = 'int tp%d(void) { %s }\n' % (k, body)
+            r = common.cproc(exe, text=src, target=t)
+            ck.evaluations += 1
+            ck.decided += 1
+            ck.count('operator', 'typeof-probe')
+            mret = re.search(r'\n\tret (\d+)\n', r.out.decode('latin-1'))
+            if r.status != 0 or not mret:
+                ck.violation('typeof:reject', 'valid probe not compiled to a constant return (-t %s): %s %s' % (t, src.strip(), r.err[:150].decode('latin-1')), {'input.c': src})
+            elif int(mret.group(1)) != want:
+                ck.violation('typeof:%d' % k, '_Generic selects %s, C23 gives %d (-t %s): %s' % (mret.group(1), want, t, src.strip()), {'input.c': src})
     for d in alld:
         ck.distinct.add(d.meta[3])
     ck.exhaustive = True
